@@ -1,7 +1,81 @@
-"""Further C01 families (value-dependent, Literal, type[...]); filled in as those explorers exist."""
+"""Further C01 families: value-dependent (C10 programs), Literal / built-in value types (C11), type[...] (C14)."""
 
-FAMILIES = []
+from . import annot, gen
+from .ref import RefMethod
+
+
+def _run(acc, fam, space, classes, mspecs, calls, mkargs):
+    from .c01 import judge
+
+    try:
+        prog = gen.Program(classes, mspecs, annotate=annot.annotate)
+    except Exception:  # noqa  (build refusals are judged by the owning property)
+        acc.count("skipped_build_errors")
+        return
+    methods = {ms["id"]: RefMethod(ms, i) for i, ms in enumerate(mspecs)}
+    sem = annot.Sem(classes)
+    acc.count("programs")
+    acc.h("family", fam)
+    for c in calls:
+        args, kwargs = mkargs(c)
+        prog.call(args, kwargs)
+        judge(acc, prog.log, methods, sem, prog.defaults, args, kwargs,
+              lambda: {"family": fam, "space": space, "methods": mspecs, "call": list(c) if isinstance(c, tuple) else c})
+
+
+def family_dependent(tier, shard, nshards, acc):
+    from . import c10
+
+    for idx, (space, mspecs, vnames) in enumerate(c10.programs(tier)):
+        if idx % nshards == shard:
+            _run(acc, "dependent", space, c10.CLASSES, mspecs, vnames, c10.args_for)
+            if idx % 100 == 0:
+                gen.purge_globals()
+
+
+def family_valuetypes(tier, shard, nshards, acc):
+    from . import c11
+
+    for idx, (T, comps, pos2, order) in enumerate(c11.programs(tier)):
+        if idx % nshards == shard and (order is None or order == tuple(range(len(comps) + 1))):
+            mspecs = c11.mspecs_for(T, comps, pos2, order)
+            _run(acc, "valuetypes", "c11", c11.CLASSES, mspecs, [n for n, _ in c11.CORPUS],
+                 lambda n: (((c11.VALUES[n], 5) if pos2 else (c11.VALUES[n],)), {}))
+            if idx % 100 == 0:
+                gen.purge_globals()
+
+
+def family_types(tier, shard, nshards, acc):
+    from . import c14
+
+    classes = dict(c14.CLASSES, tuple=tuple)
+    for idx, (space, mspecs, calls, _) in enumerate(c14.programs(tier)):
+        if idx % nshards == shard and not space.startswith("1r"):
+            _run(acc, "type-arguments", space, classes, mspecs, calls, lambda c: (tuple(c14.value(n) for n in c), {}))
+            if idx % 100 == 0:
+                gen.purge_globals()
+
+
+FAMILIES = [family_dependent, family_valuetypes, family_types]
 
 
 def replay(case):
-    return []
+    from . import c10, c11, c14
+    from .c01 import monitor
+
+    fam = case["family"]
+    if fam == "dependent":
+        classes, mk = c10.CLASSES, c10.args_for
+    elif fam == "valuetypes":
+        classes = c11.CLASSES
+        pos2 = "y" in case["methods"][0]["types"]
+        mk = lambda n: (((c11.VALUES[n], 5) if pos2 else (c11.VALUES[n],)), {})  # noqa
+    else:
+        classes, mk = dict(c14.CLASSES, tuple=tuple), (lambda c: (tuple(c14.value(n) for n in c), {}))
+    mspecs = case["methods"]
+    prog = gen.Program(classes, mspecs, annotate=annot.annotate)
+    methods = {ms["id"]: RefMethod(ms, i) for i, ms in enumerate(mspecs)}
+    c = case["call"]
+    args, kwargs = mk(tuple(c) if isinstance(c, list) else c)
+    prog.call(args, kwargs)
+    return monitor(prog.log, methods, annot.Sem(classes), prog.defaults)
